@@ -35,6 +35,18 @@ class Context():
                 del self._namespaces[decl]
             del self._context[namespace][entity][name]
 
+    def rekey(self, decl, mutate):
+        """`decl` may be a key of the declaration-to-namespace lookup and `mutate` changes
+        what its hash / equality read (e.g. the variance or the bound of a type parameter):
+        take the entry out while the old hash still finds it, and put it back afterwards.
+        Otherwise the entry stays in the dict under a stale hash and an equal key can be
+        inserted beside it (such a dict does not survive pickling)."""
+        present = decl in self._namespaces
+        namespace = self._namespaces.pop(decl, None)
+        mutate()
+        if present:
+            self._namespaces[decl] = namespace
+
     def add_type(self, namespace, type_name, t):
         self._add_entity(namespace, 'types', type_name, t)
 
